@@ -97,7 +97,7 @@ def big_shapes():
     two = []
     for i in range(20):
         two += [(i, i + 1), (i + 1, i)]
-    return {"diamond-ladder-24": ladder(24), "path-51": path, "out-star-40": star_out, "in-star-40": star_in, "cycle-30": cyc, "K5,5": bip,
+    return {"diamond-ladder-48": ladder(48), "path-51": path, "out-star-40": star_out, "in-star-40": star_in, "cycle-30": cyc, "K5,5": bip,
             "binary-tree-63": tree, "two-cycle-chain-21": two}
 
 
@@ -115,7 +115,7 @@ def C01(tier):
                      consts={"P1": 2, "P4": 4, "P5": 2, "SZ": 0}, bounds="same shapes x greedy with RNG picks chosen by the solver (rand.Intn = arbitrary value in range)"),
            layout_ob("layout-returns-large", "Harness_E_C01", list(big_shapes().values()), {"P1": [0, 1], "P2": [0, 1]},
                      consts={"P4": 4, "P5": 2, "SZ": 0, "NSFIX": 10, "LSFIX": 20}, loop=8192, depth=300, enctimeout=120, hang_probe=True, hang_timeout=30, validate_cubes=2,
-                     bounds="time/memory budget probe on 8 structured graphs with 21..73 nodes (%s) x {greedy,dfs} x {NS,LP}, default positioner and router, no sizes; "
+                     bounds="time/memory budget probe on 8 structured graphs with 21..145 nodes (%s) x {greedy,dfs} x {NS,LP}, default positioner and router, no sizes; "
                             "the engine's loop (8192) / recursion (300) / time (120 s) budgets are the 'generous budget'; an exhausted budget is confirmed natively under a 30 s watchdog" % ", ".join(big_shapes())),
            layout_ob("layout-returns-bk", "Harness_E_C01", shapes(3, 3) if q else shapes(4, 3), {"BK": [-1, 0, 1, 2, 3], "P2": [0, 1]},
                      consts={"P1": 0, "P4": 2, "P5": 2, "SZ": 5, "NSFIX": 10, "LSFIX": 20}, loop=96,
@@ -293,6 +293,11 @@ def C13(tier):
     obs = [layout_ob("layout-trees-planar", "Harness_E_C13", sh, {"P4": [4, 1, 5]},
                      consts={"P1": 0, "P2": 0, "P5": 2, "SZ": 4, "LSFIX": 1, "MINNS": 1},
                      bounds="all out-trees and in-trees with <= %d nodes in every edge order x {SinkColoring,VAlign,PackRight}; symbolic widths, NodeSpacing>=1" % n)]
+    if not q:
+        t7 = [t for t in trees(7, True) if len(t) == 6]
+        obs.append(layout_ob("layout-trees-planar-7", "Harness_E_C13", t7, {"P4": [4]},
+                             consts={"P1": 0, "P2": 0, "P5": 2, "SZ": 4, "LSFIX": 1, "MINNS": 1},
+                             bounds="all out-trees with exactly 7 nodes in every edge order x SinkColoring (default pipeline); symbolic widths, NodeSpacing>=1"))
     return dict(obligations=obs)
 
 
